@@ -147,8 +147,8 @@ def run(ctx: Ctx) -> None:
                           "handle_lifespan closes its channels when the application returns; an application that returns immediately for the lifespan scope (every WSGI application) makes this send raise ClosedResourceError and the trio worker never starts", puts[0])
             ctx.check("C14.R7", f"{mod}:Lifespan.wait_for_{stage}", f"sends lifespan.{stage} exactly once", ok, f"wait_for_{stage} must deliver lifespan.{stage} to the application", puts[0] if puts else fn)
             # R6: returns at once when unsupported
-            rets = [n for n in walk_local(fn) if isinstance(n, ast.Return) and n.value is None and (("self.supported", False) in guard_atoms(n) or ("not self.supported", True) in guard_atoms(n))]
-            ok = len(rets) == 1 and bool(puts) and rets[0].lineno < puts[0].lineno
+            # everything the wait does after the handshake with the lifespan task happens only while supported
+            ok = bool(puts) and all(("self.supported", True) in guard_atoms(p_) for p_ in puts)
             ctx.check("C14.R6", f"{mod}:Lifespan.wait_for_{stage}", "returns immediately when lifespan is unsupported", ok, "an application without lifespan support would block the server", fn)
         snd = repo.func(mod, "Lifespan.asgi_send")
         for stage, ev in (("startup", "self.startup.set"), ("shutdown", "self.shutdown.set")):
